@@ -204,6 +204,28 @@ AddPodNamedLikeController ==
                [world EXCEPT !.workloads = Append(@, [ns |-> world.workloads[i].ns, name |-> world.workloads[i].name, labels |-> t.labels,
                                                      ports |-> t.ports, kind |-> "Pod", expr |-> "bare", replicas |-> -1, podCount |-> 1])])
 
+(* a workload of the same kind whose name EXTENDS the name of an existing one by a suffix (cart / cart-api), inserted before  *)
+(* or after it: the synthetic pod names (cart-1, cart-api-1) never collide and neither workload may shadow the other         *)
+InsertAt(s, k, x) == SubSeq(s, 1, k - 1) \o <<x>> \o SubSeq(s, k, Len(s))
+AddSuffixNamedWorkload ==
+  /\ Len(world.workloads) < MaxWl /\ Len(world.workloads) > 0 /\ Rarely(2)
+  /\ \E i \in Pick({j \in DOMAIN world.workloads : world.workloads[j].expr = "controller" /\ world.workloads[j].name # "ingress-controller"}) :
+     \E t \in Pick(WlCat), before \in Pick(BOOLEAN) :
+       LET nm == world.workloads[i].name \o "-api"
+           wl == [world.workloads[i] EXCEPT !.name = nm, !.labels = t.labels, !.ports = t.ports]
+       IN /\ ~\E j \in DOMAIN world.workloads : world.workloads[j].ns = world.workloads[i].ns /\ world.workloads[j].name = nm
+          /\ Step("AddSuffixNamedWorkload", <<i>>,
+                  [world EXCEPT !.workloads = IF before THEN InsertAt(@, i, wl) ELSE Append(@, wl)])
+
+(* workload names are DNS-1123 subdomains, not labels: a dot is legal (web.v2) *)
+NameWithDot ==
+  /\ Len(world.workloads) > 0 /\ Rarely(3)
+  /\ \E i \in Pick({j \in DOMAIN world.workloads : world.workloads[j].name # "ingress-controller"}) :
+       LET nm == world.workloads[i].name \o ".v2"
+       IN /\ ~\E j \in DOMAIN world.workloads : world.workloads[j].ns = world.workloads[i].ns /\ world.workloads[j].name = nm
+          /\ Len(world.workloads[i].name) < 6
+          /\ Step("NameWithDot", <<i>>, [world EXCEPT !.workloads[i].name = nm])
+
 (* a workload that happens to carry the name the tool uses for its ingress-controller placeholder pod *)
 NameLikePlaceholder ==
   /\ Len(world.workloads) > 0 /\ Rarely(2)
@@ -294,6 +316,19 @@ AddRule ==
       /\ Step("AddRule", <<i, dir>>,
               [world EXCEPT !.netpols[i] =
                   WithRules(@, dir, Append(NPRules(@, dir), [peers |-> peers, ports |-> ports]))])
+
+(* a rule put IN FRONT of the rules of a policy: it selects the peers of one of them and lists only a named port that (most)   *)
+(* destinations do not declare, or declare for another protocol - it contributes nothing, and like every added rule it may     *)
+(* never remove anything (the rules after it still count)                                                                     *)
+PrependDeadNamedRule ==
+  \E i \in Pick(DOMAIN world.netpols), dir \in Pick({"Ingress", "Egress"}) :
+    /\ Len(world.netpols) > 0
+    /\ LET rs == NPRules(world.netpols[i], dir)
+           cands == {r \in DOMAIN rs : rs[r].peers # <<>> /\ \A k \in DOMAIN rs[r].peers : rs[r].peers[k].kind = "pod"}
+       IN /\ Len(rs) < MaxRules /\ cands # {}
+          /\ \E r \in Pick(cands), nm \in Pick({NamePort(FALSE, "TCP", "nosuch"), NamePort(FALSE, "SCTP", "http"), NamePort(TRUE, "TCP", "dns")}) :
+               Step("AddRule", <<i, dir>>,
+                    [world EXCEPT !.netpols[i] = WithRules(@, dir, <<[peers |-> rs[r].peers, ports |-> <<nm>>]>> \o rs)])
 
 (* a further rule that names a CIDR the policy already uses, with another except list (the address space is then cut at the *)
 (* boundaries of both occurrences); the edge is an AddRule edge: nothing may disappear                                        *)
@@ -493,7 +528,7 @@ ExplicitPolicyTypes ==
 
 AddRuleAgain == AddRule      \* listed twice: TLC's simulator picks uniformly among the disjuncts of Next
 AddRuleOnceMore == AddRule
-NPNext == AddRuleAgain \/ AddRuleOnceMore \/ AddCidrAgain \/ AddCrossNamespaceSpelling \/ AddPolicyForNamedPort \/ AddHalfPolicy \/ AddWorkload \/ AddTwinWorkload \/ AddTwinWithExposure \/ AddSecondVersion \/ AddPodNamedLikeController \/ NameLikePlaceholder \/ RemoveWorkload \/ ReExpressWorkload \/ RelabelNamespace \/ AddPolicy \/ AddRule \/ AddPeer \/ AddPort
+NPNext == AddRuleAgain \/ AddRuleOnceMore \/ PrependDeadNamedRule \/ AddCidrAgain \/ AddCrossNamespaceSpelling \/ AddPolicyForNamedPort \/ AddHalfPolicy \/ AddWorkload \/ AddTwinWorkload \/ AddTwinWithExposure \/ AddSecondVersion \/ AddPodNamedLikeController \/ AddSuffixNamedWorkload \/ NameWithDot \/ NameLikePlaceholder \/ RemoveWorkload \/ ReExpressWorkload \/ RelabelNamespace \/ AddPolicy \/ AddRule \/ AddPeer \/ AddPort
           \/ SetPolicyTypes \/ RemovePolicy \/ RespellPodSelAsIn \/ RespellPeerSelAsIn \/ SplitRange \/ SplitCidr
           \/ SplitPolicy \/ ExplicitPolicyTypes \/ MoveCidr \/ MoveCidrAgain \/ RemoveRule
 
@@ -659,17 +694,25 @@ AliasedSvcPorts(wl) ==
   LET t == TcpPorts(wl)
   IN <<SP("alias", t[1].port, OptName(t[1].name)), SP(t[1].name, t[2].port, OptNum(t[2].port))>>
 
+(* every NAMED container port, whatever its protocol, targeted by name: a name that belongs to a UDP / SCTP container port      *)
+(* reaches no TCP container port - even when the workload also has a TCP container port with the same NUMBER (dns 53/UDP,      *)
+(* dns-tcp 53/TCP)                                                                                                             *)
+NamedPorts(wl) == SelectSeq(wl.ports, LAMBDA cp : cp.name # "")
+NamedAnyProtoSvcPorts(wl) == [k \in 1..Len(NamedPorts(wl)) |-> SP("p" \o ToString(k), NamedPorts(wl)[k].port, OptName(NamedPorts(wl)[k].name))]
 AddServiceFor ==
   /\ Len(world.services) < 3
   /\ \E i \in Pick({j \in DOMAIN world.workloads : Len(TcpPorts(world.workloads[j])) > 0 /\ DOMAIN world.workloads[j].labels # {}}),
-        v \in Pick(1..6) :
+        v \in Pick(1..8) :
        LET wl == world.workloads[i]
            n == Len(world.services) + 1
            aliased == v = 6 /\ Len(TcpPorts(wl)) >= 2 /\ TcpPorts(wl)[1].name # ""
-       IN Step("AddService", <<n>>,
+           anyproto == v >= 7 /\ \E k \in DOMAIN wl.ports : wl.ports[k].name # "" /\ wl.ports[k].proto # "TCP"
+           ps == IF aliased THEN AliasedSvcPorts(wl) ELSE IF anyproto THEN NamedAnyProtoSvcPorts(wl) ELSE DerivedSvcPorts(wl, v)
+       IN \* (the API server rejects a Service that lists one port number twice for one protocol)
+          /\ \A a, b \in DOMAIN ps : a # b => ps[a].port # ps[b].port
+          /\ Step("AddService", <<n>>,
                [world EXCEPT !.services = Append(@, [ns |-> wl.ns, name |-> SvcName(n), selNil |-> FALSE,
-                                                    selector |-> wl.labels,
-                                                    ports |-> IF aliased THEN AliasedSvcPorts(wl) ELSE DerivedSvcPorts(wl, v)])])
+                                                    selector |-> wl.labels, ports |-> ps])])
 
 ByName(s, k) == [svc |-> s.name, port |-> OptName(s.ports[k].name)]
 ByNum(s, k) == [svc |-> s.name, port |-> OptNum(s.ports[k].port)]
@@ -680,7 +723,7 @@ BackendsOf(s) ==
   {<<ByName(s, 1)>>, <<ByNum(s, 1)>>} \cup ByTargetName(s)
   \cup (IF Len(s.ports) >= 2
         THEN {<<ByName(s, 1), ByName(s, 2)>>, <<ByName(s, 2), ByName(s, 1)>>, <<ByNum(s, 1), ByName(s, 2)>>,
-              <<ByName(s, 2)>>, <<ByNum(s, 2), ByNum(s, 1)>>}
+              <<ByName(s, 2)>>, <<ByNum(s, 2), ByNum(s, 1)>>, <<ByName(s, Len(s.ports))>>}
         ELSE {})
 
 AddIngressFor ==
